@@ -42,12 +42,12 @@ CHECKS = {
              text="Fault enumeration over the crash points between every two persistence steps of FinishCommand/RecordCommand/RecordDeps and over interrupts, with orphaned commands completing or not; the recovery build must succeed and leave the needed closure equal to a clean build; after an interrupt: status 130, lock file gone, modified outputs (all outputs of depfile commands) gone."),
  "C10": dict(cat="model_checking", ref="6.C10", tech="metamorphic twin scenarios (discovered dependencies vs the same written as implicit inputs) generated from Families.tla, both run on the real engine; TLC trace validation compares commands, results and final contents per invocation (RefTrace.tla twin monitor)",
              text="For every scenario with depfile / deps=gcc / deps=msvc dependencies (sources or generated, with or without a manifest path) and every change set and schedule, the run must start the same commands, end the same way and leave the same contents as the declared twin; ordering of generated headers is checked by the C04 monitor on the same traces. KF-DEPS-SKIPPED is reported by signature."),
- "C11": dict(cat="model_checking", ref="6.C11", tech="metamorphic twin scenarios (dyndep file vs its information inlined in the manifest) over dyndep graph shapes from Families.tla, all completion orders on the real engine, TLC trace validation of the twin monitor",
-             text="Dyndep files that exist or are produced during the build (clean or dirty producer, shared, two levels, extra order-only inputs, discovered inputs/outputs/restat): same commands, result and final contents as the inlined twin for every history and schedule.  (Invalid dyndep files: see the evidence field 'invalid_variants'.)"),
+ "C11": dict(cat="model_checking", ref="6.C11", tech="metamorphic twin scenarios (dyndep file vs its information inlined in the manifest) over dyndep graph shapes from Families.tla, plus every deletion / duplication / truncation / substitution variant of a dyndep file generated and judged valid or invalid by the token-level reference grammar spec/Dyndep.tla; all completion orders on the real engine, TLC trace validation (twin monitor; invalid file => build fails and none of its statements starts; valid variant => all engine monitors with the variant's meaning)",
+             text="Dyndep files that exist or are produced during the build (clean or dirty producer, shared, two levels, extra order-only inputs, discovered inputs/outputs/restat): same commands, result and final contents as the inlined twin for every history and schedule.  Invalid variants (malformed, truncated at every token, statement omitted / added / twice, foreign or duplicate output, bad path) of a file shared by two statements, as a source and as a build product: the build must fail. Not forced yet: a missing dyndep file."),
  "C17": dict(cat="model_checking", ref="6.C17", tech="graphs with back edges through every input kind, multi-output statements, recorded dependencies and dyndep files generated from Families.tla; real scan/build executions validated by TLC against the graph-theoretic cycle definition of NinjaRef.tla (CycleStmts / AcyclicN)",
              text="Soundness and completeness of cycle diagnosis over generated graphs: a cycle in the needed closure => non-zero exit, 'dependency cycle' message whose hops are real inputs, first = last, no command of the cycle run; no cycle => never the cycle message (validation back references included)."),
- "C19": dict(cat="model_checking", ref="6.C19", tech="histories with dry-run invocations (after changes, failures and crashes) from Families.tla on the real engine; TLC trace validation: no command started, sources/outputs/depfiles and the loaded meaning of both logs unchanged, listed commands = NinjaRef!ExpectedRun",
-             text="Dry-run part of C19 on the in-process harness: tree and log meaning before/after, prediction equals the reference (superset with restat).  The read-only tools of the real binary are checked by the H2 part when present (evidence field 'tools')."),
+ "C19": dict(cat="model_checking", ref="6.C19", tech="histories with dry-run invocations (after changes, failures, crashes, early stops) from Families.tla on the real engine, and histories in which every read-only tool of the real ninja binary is run (family tools, H2); TLC trace validation against NinjaRef: no command started, sources/outputs/depfiles and both logs unchanged, dry-run listing = ExpectedRun, `-t commands` = non-phony statements of the from-scratch needed closure in an order respecting Producers, compdb output parses as JSON with quotes / control characters / non-ASCII bytes in the commands",
+             text="Dry-run part on the in-process harness: tree and log meaning before/after, prediction equals the reference (superset with restat). Tool part on the real binary: commands, commands -s, inputs, multi-inputs, query, targets (all/depth/rule), rules (-d), graph, compdb (all/rule), compdb-targets, deps (all/target), missingdeps on fresh and built-then-changed trees; the builds that follow must behave as if the tools had not run (engine monitors on the same trace)."),
  "C18": dict(cat="model_checking", ref="6.C18", tech="clean scopes as TLA+ set comprehensions (RefTrace.tla CleanScope) checked by TLC on executions of the real Cleaner (all / targets / rules / -g / -n / cleandead) over generated graphs, tree states and manifest variants",
              text="For every generated graph x tree state x scope: removed files lie inside the scope and outside sources / phony names / (without -g) generator outputs, every existing file of the scope is removed (dry run: counted, nothing removed), and the following build re-creates everything (C01 monitor on the same trace)."),
  "C12": dict(cat="model_checking", ref="6.C12", engine="function-reference", tech="TLA+ reference evaluator over manifest ASTs (Manifest.tla: scopes, immediate/late expansion, include vs subninja, constraints); TLC evaluates it on seed-sampled programs of a bounded grammar, renders them to text and exports (files, expected graph or error); each program (in two layouts) is parsed by the real ManifestParser and the dumped State compared",
@@ -56,8 +56,8 @@ CHECKS = {
  "C13": dict(cat="exploration", ref="6.C13", engine="sanitizer-exploration", tech="bounded-exhaustive token strings of the alphabets in spec/Fuzz.tla and seeded mutations of TLC-rendered manifests and real logs, run through ASan+UBSan builds of the real parsers/loaders with a watchdog (harness/c13.cc)",
              text="Exploration, not model checking: TLA+ cannot express memory safety; the specification contributes the input spaces (token alphabets and bounds, valid seeds rendered from Manifest.tla, logs from the writer models). Every input must end in 'processed' or 'reported an error'; a sanitizer report, signal, uncaught exception or watchdog timeout is a violation.",
              note="Trusted: clang ASan/UBSan (alignment check off, leak check off), the watchdog. Bounded: alphabets and token counts in the evidence."),
- "C20": dict(cat="model_checking", ref="6.C20", tech="Status-interface call sequences of real engine executions (pools incl. console, failures, restat pruning, dyndep additions, interrupts) validated by TLC against the counter monitors of RefTrace.tla",
-             text="Counter clauses of C20 over every schedule of the generated scenarios: started <= total, finished <= started at every call, every started command reported finished unless interrupted, finished = started = total after success. (Output-stream clauses: see evidence field 'output_stream'.)"),
+ "C20": dict(cat="model_checking", ref="6.C20", tech="Status-interface call sequences of real engine executions (pools incl. console, failures, restat pruning, dyndep additions, interrupts) validated by TLC against the counter monitors of RefTrace.tla; and the byte stream the real StatusPrinter/LinePrinter write to a captured stdout (file = piped, pseudo terminal = smart terminal) for every Status call of those executions, lexed into status / FAILED / output tokens and validated by TLC against the reference machine spec/StatusStream.tla (exactly once, contiguous, after its own status line, console hold-back and release, droppable status lines, counters)",
+             text="Counter clauses over every schedule of the generated scenarios: started <= total, finished <= started at every call, every started command reported finished unless interrupted or killed on a fatal error, finished = started = total after success. Stream clauses (family status): outputs with marks, NUL, ANSI sequences, CR, look-alike text, long runs, with and without final newline; failing commands; console-pool statements; -j/-k; restat pruning; piped and terminal mode. Not covered: output arriving in pieces through real subprocess pipes, non-default NINJA_STATUS/--status."),
 }
 
 NOT_YET = "check not built yet (work in progress; see DESIGN.md section 9)"
